@@ -24,6 +24,22 @@ type fieldVal interface {
 	String() string
 }
 
+// c14Clobber overwrites the caller-owned input buffer after construction (what database
+// drivers and decoders do with reused buffers) and re-asserts the value: it must not change.
+func c14Clobber(r *fw.Run, key, route, desc string, buf []byte, orig string, v fieldVal) {
+	if !v.IsSet() || len(buf) == 0 {
+		return
+	}
+	for i := range buf {
+		buf[i] = '\n'
+	}
+	r.Count("clobber_checks", 1)
+	if v.String() != orig || hasNewline(v.String()) {
+		r.Violation(key, []string{"value_aliases_input_buffer", "route_" + route}, map[string]any{"route": route, "input": desc, "value_after_overwrite": fw.Q(v.String())},
+			"C14: %s(%s): the set value changed to %s after the caller reused its input buffer", route, desc, fw.Q(v.String()))
+	}
+}
+
 // c14Judge applies the oracle to one (route, input) observation.
 //   - v: resulting value; rerr: the route's error (hasErr tells whether the route has one)
 //   - input: the logical string the route was given (after JSON decoding etc.); ok=false when
@@ -114,8 +130,10 @@ func c14String(r *fw.Run, key, s string) {
 	// UnmarshalText, starting from a previously set value (must not survive a failed decode as multi-line)
 	{
 		v := sse.ID("old")
-		err := v.UnmarshalText([]byte(s))
+		buf := []byte(s)
+		err := v.UnmarshalText(buf)
 		c14Judge(r, key, "UnmarshalText", "id", desc, s, true, v, err, true)
+		c14Clobber(r, key, "UnmarshalText", desc, buf, s, v)
 		w := sse.Type("old")
 		err = w.UnmarshalText([]byte(s))
 		c14Judge(r, key, "UnmarshalText", "type", desc, s, true, w, err, true)
@@ -145,14 +163,18 @@ func c14String(r *fw.Run, key, s string) {
 		err := v.Scan(s)
 		c14Judge(r, key, "Scan(string)", "id", desc, s, true, v, err, true)
 		v2 := sse.ID("old")
-		err = v2.Scan([]byte(s))
+		buf := []byte(s)
+		err = v2.Scan(buf)
 		c14Judge(r, key, "Scan([]byte)", "id", desc, s, true, v2, err, true)
+		c14Clobber(r, key, "Scan([]byte)", desc, buf, s, v2)
 		w := sse.Type("old")
 		err = w.Scan(s)
 		c14Judge(r, key, "Scan(string)", "type", desc, s, true, w, err, true)
 		w2 := sse.Type("old")
-		err = w2.Scan([]byte(s))
+		buf2 := []byte(s)
+		err = w2.Scan(buf2)
 		c14Judge(r, key, "Scan([]byte)", "type", desc, s, true, w2, err, true)
+		c14Clobber(r, key, "Scan([]byte)", desc, buf2, s, w2)
 	}
 	// Upgrade: Last-Event-Id header set directly on the request (net/http would refuse CR/LF on
 	// the wire, but handlers can be called with any header map).
@@ -276,8 +298,16 @@ func TestC14(t *testing.T) {
 		r.Eval(fw.Hash("c14w", in), strings.Contains(in, "id") || strings.Contains(in, "event"))
 		m := sse.Message{}
 		m.ID = sse.ID("old")
-		err := m.UnmarshalText([]byte(in))
+		inbuf := []byte(in)
+		err := m.UnmarshalText(inbuf)
 		desc := fw.Q(fw.Trunc(in, 120))
+		idBefore, tyBefore := m.ID.String(), m.Type.String()
+		for k := range inbuf {
+			inbuf[k] = '\n'
+		}
+		if m.ID.String() != idBefore || m.Type.String() != tyBefore {
+			r.Violation(key, []string{"value_aliases_input_buffer", "route_Message.UnmarshalText"}, map[string]any{"input": desc}, "C14: Message.UnmarshalText: ID/Type changed after the caller reused its input buffer")
+		}
 		c14Judge(r, key, "Message.UnmarshalText", "id", desc, "", false, m.ID, err, true)
 		c14Judge(r, key, "Message.UnmarshalText", "type", desc, "", false, m.Type, err, true)
 	}
